@@ -86,7 +86,7 @@ fn large_tables(rep: &mut Report, rng: &mut Rng, rounds: usize, id: &str) {
     use std::collections::HashMap;
     const N: i64 = 10_400;
     let mut base = egglog::EGraph::default();
-    let prog = format!("(datatype M (Num i64) (Mul M M) (Neg M) (Add M M))\n(Num 0)\n(rule ((= x (Num i)) (< i {N})) ((Mul x x) (Add x (Num 0)) (Num (+ i 1))))\n(run {})\n", N + 1);
+    let prog = format!("(datatype M (Num i64) (Mul M M) (Neg M) (Add M M))\n(relation same (M M))\n(ruleset u)\n(rule ((same x y)) ((union x y)) :ruleset u)\n(Num 0)\n(rule ((= x (Num i)) (< i {N})) ((Mul x x) (Add x (Num 0)) (Num (+ i 1))))\n(run {})\n", N + 1);
     if !engine::run(&mut base, &prog).is_ok() { rep.violate("correspondence", "setup", "large-table setup failed".into(), json!({})); return; }
     let num = |k: i64| format!("(Num {k})"); let sq = |k: i64| format!("(Mul (Num {k}) (Num {k}))"); let ad = |k: i64| format!("(Add (Num {k}) (Num 0))");
     for round in 0..rounds {
@@ -96,11 +96,17 @@ fn large_tables(rep: &mut Report, rng: &mut Rng, rounds: usize, id: &str) {
         for _ in 0..(1 + rng.below(3)) { let k = small(rng); cmds.push(format!("(Neg {})", [num(k), sq(k), ad(k)][rng.below(3)].clone())); }
         let mut terms: Vec<String> = vec![];
         for k in 0..6 { terms.push(num(k)); terms.push(sq(k)); terms.push(ad(k)); terms.push(format!("(Neg {})", num(k))); terms.push(format!("(Neg {})", sq(k))); }
-        for _ in 0..(2 + rng.below(5)) {
+        let mut unions: Vec<(String, String)> = vec![];
+        let mut batch: Vec<String> = vec![];
+        for _ in 0..(2 + rng.below(6)) {
             let (a, b) = (small(rng), small(rng));
             let l = [num(a), sq(a), ad(a)][rng.below(3)].clone(); let r = [num(b), sq(b), ad(b)][rng.below(3)].clone();
-            cmds.push(if rng.chance(1, 2) { format!("(union {l} {r})") } else { format!("(union {r} {l})") });
+            let (l, r) = if rng.chance(1, 2) { (l, r) } else { (r, l) };
+            unions.push((l.clone(), r.clone()));
+            // half of the unions are issued one per command, the others several in ONE command (several displaced ids in one rebuild round)
+            if rng.chance(1, 2) { cmds.push(format!("(union {l} {r})")); } else { batch.push(format!("(same {l} {r})")); if batch.len() >= 2 + rng.below(3) { cmds.push(format!("{} (run u 1)", batch.join(" "))); batch.clear(); } }
         }
+        if !batch.is_empty() { cmds.push(format!("{} (run u 1)", batch.join(" "))); }
         let mut hist = prog.clone();
         for c in &cmds {
             hist.push_str(c); hist.push('\n');
@@ -114,7 +120,6 @@ fn large_tables(rep: &mut Report, rng: &mut Rng, rounds: usize, id: &str) {
             let _ = &raw;
         }
         // verdicts: reference = naive closure over the terms mentioned, by repeated congruence over the unions issued
-        let unions: Vec<(String, String)> = cmds.iter().filter_map(|c| c.strip_prefix("(union ").map(|r| { let r = &r[..r.len() - 1]; split_two(r) })).collect();
         let mut cls: HashMap<String, usize> = HashMap::new();
         let universe: Vec<String> = { let mut u = terms.clone(); for k in 0..13 { for t in [num(k), sq(k), ad(k), format!("(Neg {})", num(k)), format!("(Neg {})", sq(k)), format!("(Neg {})", ad(k))] { if !u.contains(&t) { u.push(t); } } } u };
         for (i, t) in universe.iter().enumerate() { cls.insert(t.clone(), i); }
